@@ -137,7 +137,7 @@ def table : Table :=
 
 /-- `_check_valid_layers`, `_update_layer_metadata`, `_update_psd_record` without their docstrings -/
 def checkSrc : String := "assert layers is not self, 'Cannot add the group {} to itself.'.format(self)\nif isinstance(layers, Layer):\n    layers = [layers]\nfor layer in layers:\n    assert isinstance(layer, Layer)\n    assert layer is not self, 'Cannot add the group {} to itself.'.format(self)\n    if isinstance(layer, GroupMixin):\n        assert self not in list(layer.descendants()), 'This operation would create a reference loop within the group between {} and {}.'.format(self, layer)"
-def refreshSrc : String := "from psd_tools.api.psd_image import PSDImage\n_psd: PSDImage | None = self if isinstance(self, PSDImage) else self._psd\nfor layer in self.descendants():\n    if layer._psd != _psd and _psd is not None:\n        if isinstance(layer, PixelLayer):\n            layer._convert(_psd)\n        elif isinstance(layer, ShapeLayer):\n            layer._bbox = None\n        layer._fetch_tagged_blocks(_psd)\n        layer._psd = _psd\n    if isinstance(layer, GroupMixin):\n        layer._bbox = None\nfor layer in self._layers[:]:\n    layer._parent = self"
+def refreshSrc : String := "from psd_tools.api.psd_image import PSDImage\n_psd: PSDImage | None = self if isinstance(self, PSDImage) else self._psd\nfor layer in self.descendants():\n    if layer._psd != _psd and _psd is not None:\n        if isinstance(layer, PixelLayer):\n            layer._convert(_psd)\n        elif isinstance(layer, ShapeLayer):\n            layer._bbox = None\n        layer._fetch_tagged_blocks(_psd)\n        layer._psd = _psd\n        if hasattr(layer, '_effects'):\n            del layer._effects\n    if isinstance(layer, GroupMixin):\n        layer._bbox = None\nfor layer in self._layers[:]:\n    layer._parent = self"
 def dirtySrc : String := "from psd_tools.api.psd_image import PSDImage\npsd = self if isinstance(self, PSDImage) else self._psd\nif psd is not None:\n    psd._updated_layers = True\n    psd._compute_clipping_layers()\nself._invalidate_bbox()"
 
 end PsdVerif.Generated.TreeTable
